@@ -131,13 +131,13 @@ theorem foreign_untouched_lts {own : String} {s s' : State} {l : Label} (hr : Re
 set_option synthInstance.maxSize 4000 in
 set_option synthInstance.maxHeartbeats 800000 in
 theorem decision_spec_bool : ∀ (spawning spawnReq changing changeReq blocked ongoing deleted consistent spawnDelays changeDelays : Bool),
-    ((decision ⟨spawning, spawnReq, changing, changeReq, blocked, ongoing, deleted, consistent, spawnDelays, changeDelays⟩).add = true ↔
+    ((decision ⟨spawning, spawnReq, changing, changeReq, blocked, ongoing, deleted, consistent, spawnDelays, changeDelays, false, false, false⟩).add = true ↔
         ((spawning = true ∧ spawnReq = true) ∨ (changing = true ∧ changeReq = true)) ∧ blocked = false ∧ ongoing = false) ∧
-    ((decision ⟨spawning, spawnReq, changing, changeReq, blocked, ongoing, deleted, consistent, spawnDelays, changeDelays⟩).removeUnneeded = true ↔
+    ((decision ⟨spawning, spawnReq, changing, changeReq, blocked, ongoing, deleted, consistent, spawnDelays, changeDelays, false, false, false⟩).removeUnneeded = true ↔
         ¬((spawning = true ∧ spawnReq = true) ∨ (changing = true ∧ changeReq = true)) ∧ blocked = true) ∧
-    ((decision ⟨spawning, spawnReq, changing, changeReq, blocked, ongoing, deleted, consistent, spawnDelays, changeDelays⟩).handlersRun = true ↔
+    ((decision ⟨spawning, spawnReq, changing, changeReq, blocked, ongoing, deleted, consistent, spawnDelays, changeDelays, false, false, false⟩).handlersRun = true ↔
         changing = true ∧ consistent = true ∧ ¬(((spawning = true ∧ spawnReq = true) ∨ (changing = true ∧ changeReq = true)) ∧ blocked = false ∧ ongoing = false) ∧ ¬(¬((spawning = true ∧ spawnReq = true) ∨ (changing = true ∧ changeReq = true)) ∧ blocked = true)) ∧
-    ((decision ⟨spawning, spawnReq, changing, changeReq, blocked, ongoing, deleted, consistent, spawnDelays, changeDelays⟩).release = true ↔
+    ((decision ⟨spawning, spawnReq, changing, changeReq, blocked, ongoing, deleted, consistent, spawnDelays, changeDelays, false, false, false⟩).release = true ↔
         deleted = false ∧ ongoing = true ∧ blocked = true ∧ spawnDelays = false ∧
         (((spawning = true ∧ spawnReq = true) ∨ (changing = true ∧ changeReq = true)) ∧ changing = true → consistent = true ∧ changeDelays = false)) := by
   decide
@@ -157,8 +157,24 @@ theorem decision_spec (i : In) :
     ((decision i).release = true ↔
         i.deletedEvent = false ∧ i.isOngoing = true ∧ i.isBlocked = true ∧ i.spawnDelays = false ∧
         (((i.spawning = true ∧ i.spawnReq = true) ∨ (i.changing = true ∧ i.changeReq = true)) ∧ i.changing = true → i.consistent = true ∧ i.changeDelays = false)) := by
-  rcases i with ⟨a, b, c, d, e, f, g, h, j, k⟩
-  exact decision_spec_bool a b c d e f g h j k
+  rcases i with ⟨a, b, c, d, e, f, g, h, j, k, dl, p, cr⟩
+  exact decision_spec_bool a b c d e f g h j k   -- (none of the four reads `deadline`/`paused`/`carried`)
+
+/-- What the cycle returns as its delays (non-empty → `application.apply` sleeps and then touches the object unless
+the patch changed it). A cycle that leaves before the state-dependent handlers — a changing cause survived the two
+finalizer branches and the state is inconsistent — returns the daemons' delays plus, unless the operator is paused,
+the REST OF THE WAITING TIME while the version of the own last patch is awaited (repair 30557a0: it comes back
+even if its patch brings no event and the awaited event is lost) or a ZERO delay when it left because of a carried
+patch (the rework 02af7ce of 608a57d: it comes back even if the carried fns have nothing to change); any other cycle
+returns the daemons' and the handlers' delays. -/
+theorem decision_delays_spec (i : In) :
+    let early := i.changing = true ∧ (decision i).add = false ∧ (decision i).removeUnneeded = false ∧ i.consistent = false
+    (early → ((decision i).delays = true ↔ i.spawnDelays = true ∨ (i.paused = false ∧ (i.deadline = true ∨ i.carried = true)))) ∧
+    (¬early → ((decision i).delays = true ↔ i.spawnDelays = true ∨ ((decision i).handlersRun = true ∧ i.changeDelays = true))) ∧
+    (early → (decision i).handlersRun = false ∧ (decision i).release = false) := by
+  rcases i with ⟨a, b, c, d, e, f, g, h, j, k, dl, p, cr⟩
+  cases a <;> cases b <;> cases c <;> cases d <;> cases e <;> cases f <;> cases h <;>
+    simp [decision, mustBlockG, addG, removeG, earlyG, releaseG, waitG]
 
 -- the queued fns, in program order (so the LAST one reflects the newest decision) — by definition
 example (d : Decision) :
@@ -166,11 +182,16 @@ example (d : Decision) :
             (if d.release then [Fn.allow] else []) := rfl
 
 -- all four actions occur
-example : (decision ⟨true, true, false, false, false, false, false, true, false, false⟩).fns = [Fn.block] := by decide
-example : (decision ⟨true, false, false, false, true, false, false, true, false, false⟩).fns = [Fn.allow] := by decide
-example : (decision ⟨true, false, false, false, true, true, false, true, false, false⟩).fns = [Fn.allow, Fn.allow] := by decide
-example : (decision ⟨false, false, true, true, true, true, false, true, false, false⟩).fns = [Fn.allow] := by decide
-example : (decision ⟨false, false, true, true, true, true, false, true, false, true⟩).fns = [] := by decide
+example : (decision ⟨true, true, false, false, false, false, false, true, false, false, false, false, false⟩).fns = [Fn.block] := by decide
+example : (decision ⟨true, false, false, false, true, false, false, true, false, false, false, false, false⟩).fns = [Fn.allow] := by decide
+example : (decision ⟨true, false, false, false, true, true, false, true, false, false, false, false, false⟩).fns = [Fn.allow, Fn.allow] := by decide
+example : (decision ⟨false, false, true, true, true, true, false, true, false, false, false, false, false⟩).fns = [Fn.allow] := by decide
+example : (decision ⟨false, false, true, true, true, true, false, true, false, true, false, false, false⟩).fns = [] := by decide
+-- the early exit: no fns, no handlers; a delay iff a version is awaited or the patch was carried (and the operator is not paused)
+example : (decision ⟨false, false, true, true, true, true, false, false, false, false, false, false, true⟩) = ⟨false, false, false, false, true⟩ := by decide
+example : (decision ⟨false, false, true, true, true, true, false, false, false, false, true, false, false⟩) = ⟨false, false, false, false, true⟩ := by decide
+example : (decision ⟨false, false, true, true, true, true, false, false, false, false, true, true, false⟩) = ⟨false, false, false, false, false⟩ := by decide
+example : (decision ⟨false, false, true, true, true, true, false, false, false, false, false, false, false⟩) = ⟨false, false, false, false, false⟩ := by decide
 
 /-! ## Never removed early -/
 
@@ -329,22 +350,25 @@ theorem never_early_fails (own : String) :
 /-! ## Released eventually; added and removed with the matching -/
 
 /-- A marked object that still holds the finalizer and has nothing left to wait for loses it in ONE
-undisturbed cycle (consistent state, nothing carried, no other handler's delay). -/
+undisturbed cycle (consistent state, no carried patch, no other handler's delay). -/
 theorem released_in_one_quiet_cycle (own : String) (s : State) (e : Env)
     (hg : s.gone = false) (hp : s.pending = none) (hmem : s.mem = [])
     (hm : s.marked = true) (hown : own ∈ s.fins) (hset : Settled s)
-    (hc : e.consistent = true) (hod : e.otherDelays = false) (hdr : e.delReset = false) :
+    (hc : e.consistent = true) (hcr : e.carried = false) (hod : e.otherDelays = false) (hdr : e.delReset = false) :
     ∃ s', run own s (cycleLabels s e) = some s' ∧ own ∉ s'.fins ∧ s'.mem = [] ∧ s'.pending = none ∧
           (s'.fins = [] → s'.gone = true) :=
-  ⟨afterCycle own s e, cycle_run own s e hg hp, afterCycle_released own s e hmem hm hown hset hc hod hdr⟩
+  ⟨afterCycle own s e, cycle_run own s e hg hp, afterCycle_released own s e hmem hm hown hset hc hcr hod hdr⟩
 
 /-! ### … and such a cycle does come (the wake-up layer `LState`/`lstep`, see the model)
 
   `LReachG`: any run of the wake-up layer — the worker takes the queued events one per cycle, oldest first,
   each cycle decides on the body of ITS event (stale bodies included); a cycle may leave early as inconsistent
-  only while another event is queued; cycles that returned delays sleep and touch unless their patch changed
-  the object — under `LGuard`: no HTTP 422 injected without a real write (`injected_422_loses_wakeup` shows
-  why it is needed). Restarts, foreign writes, genuine conflicts, completions, no-op patches are free. -/
+  only while the version of the worker's own last patch is awaited — whether that event is still to come or was
+  lost — and then returns the rest of the waiting time as a delay (repair 30557a0); cycles that returned delays
+  sleep and touch unless their patch changed the object — under `LGuard`: no HTTP 422 injected without a real
+  write (`injected_422_loses_wakeup` shows why it is needed). Restarts, foreign writes, genuine conflicts,
+  completions, no-op patches, handler-supplied fns with nothing to change (carried or not: repair b7bf39c and the
+  rework 02af7ce of 608a57d) are free. -/
 
 /-- The wake-up layer only schedules the base LTS: every safety theorem above holds of its runs. -/
 theorem wakeup_layer_refines {own : String} {s : LState} (h : LReach own s) : Reach own s.base :=
@@ -352,7 +376,8 @@ theorem wakeup_layer_refines {own : String} {s : LState} (h : LReach own s) : Re
 
 /-- No lost wake-up: an object that waits for its release (exists, marked, holds the own finalizer) always
 has an enabled step of the operator ahead — a request of the cycle in flight, a cycle on the oldest queued
-event, or the touch that ends the sleep. -/
+event, or the touch that ends the sleep. (Since repair 30557a0 and the rework 02af7ce of 608a57d without the former
+exclusion of handler-supplied fns — finding F9 — and without the assumption that an awaited version always arrives.) -/
 theorem no_lost_wakeup {own : String} {s : LState} (h : LReachG own s) (hw : Waiting own s.base) :
     ∃ l, LLabel.isOperator l = true ∧ (lstep own s l).isSome = true := by
   have hI := linv_reach h
@@ -489,14 +514,14 @@ theorem add_on_match (own : String) (s : State) (e : Env)
   refine ⟨afterCycle own s e, cycle_run own s e hg hp, ?_⟩
   have hmb : (s.matchDel || (s.matchDmn && !s.dmnForever)) = true := by
     rcases hmatch with h | ⟨h1, h2⟩ <;> simp [*]
-  have hb := add_bool s.matchDel s.matchDmn s.delDone s.dmnLive s.dmnForever e.consistent s.mem.isEmpty
+  have hb := add_bool s.matchDel s.matchDmn s.delDone s.dmnLive s.dmnForever (e.consistent && !e.carried) s.mem.isEmpty
     e.otherChanging e.otherDelays e.delReset hmb
-  have hin : inputs own (snap s) s e = inputsB s.matchDel s.matchDmn s.delDone s.dmnLive s.dmnForever false false
-      e.consistent s.mem.isEmpty e.otherChanging e.otherDelays e.delReset := by
+  have hin : inputs own (snap s) s e = withWait (inputsB s.matchDel s.matchDmn s.delDone s.dmnLive s.dmnForever false false
+      (e.consistent && !e.carried) s.mem.isEmpty e.otherChanging e.otherDelays e.delReset) e.waiting (e.carried || !s.mem.isEmpty) := by
     rw [inputs_eq]; simp [hown, hm]
   have hf := fns_add_only _ hb.1 hb.2.1 hb.2.2
   have htarget : own ∈ applyFns own (s.mem ++ (decision (inputs own (snap s) s e)).fns) s.fins := by
-    rw [hin, hf]; exact (own_mem_applyFns_snoc own _ Fn.block s.fins).mpr rfl
+    rw [hin, dw_fns, hf]; exact (own_mem_applyFns_snoc own _ Fn.block s.fins).mpr rfl
   have hne : applyFns own (s.mem ++ (decision (inputs own (snap s) s e)).fns) s.fins ≠ s.fins := by
     intro heq; rw [heq] at htarget; exact hown htarget
   simp only [afterCycle, hne, if_false]
@@ -512,14 +537,14 @@ theorem remove_on_mismatch (own : String) (s : State) (e : Env)
   refine ⟨afterCycle own s e, cycle_run own s e hg hp, ?_⟩
   have hmb : (s.matchDel || (s.matchDmn && !s.dmnForever)) = false := by
     rcases hmis with ⟨h0, h | h⟩ <;> simp [*]
-  have hb := remove_bool s.matchDel s.matchDmn s.delDone s.dmnLive s.dmnForever s.marked e.consistent
+  have hb := remove_bool s.matchDel s.matchDmn s.delDone s.dmnLive s.dmnForever s.marked (e.consistent && !e.carried)
     s.mem.isEmpty e.otherChanging e.otherDelays e.delReset hmb
-  have hin : inputs own (snap s) s e = inputsB s.matchDel s.matchDmn s.delDone s.dmnLive s.dmnForever s.marked true
-      e.consistent s.mem.isEmpty e.otherChanging e.otherDelays e.delReset := by
+  have hin : inputs own (snap s) s e = withWait (inputsB s.matchDel s.matchDmn s.delDone s.dmnLive s.dmnForever s.marked true
+      (e.consistent && !e.carried) s.mem.isEmpty e.otherChanging e.otherDelays e.delReset) e.waiting (e.carried || !s.mem.isEmpty) := by
     rw [inputs_eq]; simp [hown]
   obtain ⟨pre, hpre⟩ := fns_snoc_allow _ hb.1 (by simp [hb.2])
   have htarget : own ∉ applyFns own (s.mem ++ (decision (inputs own (snap s) s e)).fns) s.fins := by
-    rw [hin, hpre, ← List.append_assoc]
+    rw [hin, dw_fns, hpre, ← List.append_assoc]
     intro hmem'
     have := (own_mem_applyFns_snoc own _ Fn.allow s.fins).mp hmem'
     cases this
@@ -535,9 +560,7 @@ theorem add_remove_on_match (own : String) (v : Snap) (s : State) (e : Env) :
         (v.matchDel = true ∨ (v.matchDmn = true ∧ s.dmnForever = false)) ∧ own ∉ v.fins ∧ v.marked = false) ∧
     (Fn.allow ∈ (decision (inputs own v s e)).fns → own ∈ v.fins ∧
         ((v.matchDel = false ∧ (v.matchDmn = false ∨ s.dmnForever = true)) ∨ v.marked = true)) := by
-  have hb := arm_bool v.matchDel v.matchDmn s.delDone s.dmnLive s.dmnForever v.marked (decide (own ∈ v.fins))
-    e.consistent s.mem.isEmpty e.otherChanging e.otherDelays e.delReset
-  rw [← inputs_eq] at hb
+  have hb := arm_inputs own v s e
   constructor
   · intro h
     rw [block_mem_fns] at h
@@ -561,7 +584,18 @@ theorem add_remove_on_match (own : String) (v : Snap) (s : State) (e : Env) :
       · exact Or.inr (h2.2 hm)
     · exact Or.inr h2
 
-/-! ## The guard of the liveness layer is necessary; the former F7 history -/
+/-! ## The guard of the liveness layer is necessary; the histories of the former findings F7, F8, F9 and C03-N6 -/
+
+theorem lreach_of_lrun {own : String} : ∀ (ls : List LLabel) (s s' : LState), LReach own s → lrun own s ls = some s' → LReach own s' := by
+  intro ls
+  induction ls with
+  | nil => intro s s' h hr; simp [lrun] at hr; subst hr; exact h
+  | cons l ls ih =>
+    intro s s' h hr
+    simp only [lrun] at hr
+    cases hst : lstep own s l with
+    | none => simp [hst] at hr
+    | some s1 => simp [hst] at hr; exact ih s1 s' (LReach.step h hst) hr
 
 /-- `LGuard` is necessary: HTTP 422 injected on the release patch twice, with no concurrent write behind it.
 The patch is non-empty and no version comes back, so the sleep is skipped; no event follows; the queued events
@@ -571,28 +605,18 @@ theorem injected_422_loses_wakeup (own : String) :
     ∃ s, LReach own s ∧ Waiting own s.base ∧ Settled s.base ∧
       ∀ l, LLabel.isOperator l = true → lstep own s l = none := by
   let s0 : LState := { base := w0, queue := [snap w0], sleeping := false, cycDelays := false, cycMerge := false,
-                       cycChanges := false, cycViewRv := 0, cycUserFns := false }
+                       cycChanges := false, cycViewRv := 0 }
   let v2 : Snap := ⟨2, true, [own], true, false⟩
   let ls : List LLabel := [.base (.decide quiet ⟨0, false, [], true, false⟩), .base (.jsonPatch false), .base .mark,
     .base .handlerFinishes, .base (.decide quiet ⟨1, false, [own], true, false⟩), .base (.jsonPatch true),
     .base (.decide quiet v2), .base (.jsonPatch true)]
   have hrun : lrun own s0 ls = some
       { base := { w0 with marked := true, fins := [own], rv := 2, delDone := true },
-        queue := [], sleeping := false, cycDelays := false, cycMerge := false, cycChanges := false, cycViewRv := 2, cycUserFns := false } := by
+        queue := [], sleeping := false, cycDelays := false, cycMerge := false, cycChanges := false, cycViewRv := 2 } := by
     simp [ls, s0, v2, lrun, lstep, enqueue, step, stepDecide, stepJson, stepMark, snap, w0, quiet, decision, inputs,
-      Decision.fns, mustBlockG, addG, removeG, earlyG, releaseG, applyFns, Fn.apply, blockDeletion, allowDeletion, allowLoop,
+      Decision.fns, mustBlockG, addG, removeG, earlyG, releaseG, waitG, applyFns, Fn.apply, blockDeletion, allowDeletion, allowLoop,
       sleepsAfter, changedUnwritten, carry, ownFns]
-  have hreach : ∀ (ls : List LLabel) (s s' : LState), LReach own s → lrun own s ls = some s' → LReach own s' := by
-    intro ls
-    induction ls with
-    | nil => intro s s' h hr; simp [lrun] at hr; subst hr; exact h
-    | cons l ls ih =>
-      intro s s' h hr
-      simp only [lrun] at hr
-      cases hst : lstep own s l with
-      | none => simp [hst] at hr
-      | some s1 => simp [hst] at hr; exact ih s1 s' (LReach.step h hst) hr
-  refine ⟨_, hreach ls s0 _ (LReach.init ?_) hrun, ?_, ?_, ?_⟩
+  refine ⟨_, lreach_of_lrun ls s0 _ (LReach.init ?_) hrun, ?_, ?_, ?_⟩
   · exact ⟨⟨rfl, rfl, rfl, rfl, rfl, rfl, rfl⟩, rfl, rfl, rfl, rfl, rfl⟩
   · exact ⟨rfl, rfl, by simp⟩
   · exact ⟨fun _ => rfl, rfl⟩
@@ -610,7 +634,7 @@ worker sleeps and will touch the object; after the daemon's exit the touch and o
 theorem noop_fn_keeps_wakeup (own : String) :
     let b0 : State := { w0 with matchDel := false, matchDmn := true }
     let s0 : LState := { base := b0, queue := [snap b0], sleeping := false, cycDelays := false, cycMerge := false,
-                         cycChanges := false, cycViewRv := 0, cycUserFns := false }
+                         cycChanges := false, cycViewRv := 0 }
     let uf : Env := { quiet with userFns := true }
     lrun own s0 [.base (.decide quiet ⟨0, false, [], false, true⟩), .base (.jsonPatch false), .base .mark,
       .base (.decide uf ⟨1, false, [own], false, true⟩), .base (.jsonPatch false),
@@ -618,49 +642,96 @@ theorem noop_fn_keeps_wakeup (own : String) :
       .touch, .base (.decide quiet ⟨3, true, [own], false, true⟩), .base (.jsonPatch false)] =
     some { base := { b0 with gone := true, marked := true, fins := [], rv := 4, dmnLive := false },
            queue := [⟨4, true, [], false, true⟩], sleeping := false, cycDelays := false, cycMerge := false,
-           cycChanges := false, cycViewRv := 3, cycUserFns := false } := by
+           cycChanges := false, cycViewRv := 3 } := by
   simp [lrun, lstep, enqueue, step, stepDecide, stepJson, stepMark, snap, w0, quiet, decision, inputs,
-    Decision.fns, mustBlockG, addG, removeG, earlyG, releaseG, applyFns, Fn.apply, blockDeletion, allowDeletion, allowLoop,
+    Decision.fns, mustBlockG, addG, removeG, earlyG, releaseG, waitG, applyFns, Fn.apply, blockDeletion, allowDeletion, allowLoop,
     sleepsAfter, changedUnwritten]
 
-/-- The second conjunct of `LGuard` is still necessary (open finding F9 = C03-N2 in the model): with a handler-supplied
-fn carried over in the patch, a cycle may leave before the handlers and the release (`consistent = false`: the patch is
-non-empty from the start) although NO other event is queued; the fn has nothing to change, nothing is sent, no delay
-was returned — the object waits, settled, with no enabled step of the operator. -/
-theorem carried_fn_loses_wakeup (own : String) :
-    ∃ s, LReach own s ∧ Waiting own s.base ∧ Settled s.base ∧
-      ∀ l, LLabel.isOperator l = true → lstep own s l = none := by
-  let s0 : LState := { base := w0, queue := [snap w0], sleeping := false, cycDelays := false, cycMerge := false,
-                       cycChanges := false, cycViewRv := 0, cycUserFns := false }
+/-- The history of the former finding F9 (= C03-N2; repaired by the rework 02af7ce of 608a57d), now live: deletion handler
+finished, the release patch [a handler's idempotent fn, allow_deletion] was rejected (a foreign write slipped in), the
+handler's fn is carried: the next cycle starts with a non-empty patch, leaves before the handlers and the release —
+and returns a ZERO delay. The carried fn has nothing to change, nothing is sent; that is no change, so the worker
+touches the object at once, and the cycle on the touch's event (nothing carried any more) releases the object.
+The label of the OLD behaviour — the same cycle leaving as inconsistent with neither an awaited version nor a carried
+patch to account for it, hence without a delay — is not a step of the wake-up layer any more. -/
+theorem carried_fn_keeps_wakeup (own : String) :
+    let s0 : LState := { base := w0, queue := [snap w0], sleeping := false, cycDelays := false, cycMerge := false,
+                         cycChanges := false, cycViewRv := 0 }
+    let cf : Env := { quiet with userFns := true, carried := true }
+    let pre : List LLabel := [.base (.decide quiet ⟨0, false, [], true, false⟩), .base (.jsonPatch false), .base .mark,
+      .base .handlerFinishes, .base (.decide quiet ⟨1, false, [own], true, false⟩), .base (.jsonPatch false)]
+    (∃ s, lrun own s0 (pre ++ [.base (.decide cf ⟨2, true, [own], true, false⟩), .base (.jsonPatch false)]) = some s ∧
+          s.sleeping = true ∧ s.queue = [] ∧ own ∈ s.base.fins) ∧
+    (∃ s, lrun own s0 (pre ++ [.base (.decide cf ⟨2, true, [own], true, false⟩), .base (.jsonPatch false), .touch,
+                               .base (.decide quiet ⟨3, true, [own], true, false⟩), .base (.jsonPatch false)]) = some s ∧
+          s.base.gone = true ∧ own ∉ s.base.fins) ∧
+    (∀ s, lrun own s0 pre = some s →
+          lstep own s (.base (.decide { quiet with userFns := true, consistent := false } ⟨2, true, [own], true, false⟩)) = none) := by
+  refine ⟨⟨{ base := { w0 with marked := true, fins := [own], rv := 2, delDone := true },
+             queue := [], sleeping := true, cycDelays := true, cycMerge := false, cycChanges := false, cycViewRv := 2 },
+           ?_, rfl, rfl, by simp⟩,
+          ⟨{ base := { w0 with gone := true, marked := true, fins := [], rv := 4, delDone := true },
+             queue := [⟨4, true, [], true, false⟩], sleeping := false, cycDelays := false, cycMerge := false,
+             cycChanges := false, cycViewRv := 3 }, ?_, rfl, by simp⟩, ?_⟩
+  · simp [lrun, lstep, enqueue, step, stepDecide, stepJson, stepMark, snap, w0, quiet, decision, inputs,
+      Decision.fns, mustBlockG, addG, removeG, earlyG, releaseG, waitG, applyFns, Fn.apply, blockDeletion, allowDeletion, allowLoop,
+      sleepsAfter, changedUnwritten]
+  · simp [lrun, lstep, enqueue, step, stepDecide, stepJson, stepMark, snap, w0, quiet, decision, inputs,
+      Decision.fns, mustBlockG, addG, removeG, earlyG, releaseG, waitG, applyFns, Fn.apply, blockDeletion, allowDeletion, allowLoop,
+      sleepsAfter, changedUnwritten]
+  · intro s hs
+    simp [lrun, lstep, enqueue, step, stepDecide, stepJson, stepMark, snap, w0, quiet, decision, inputs,
+      Decision.fns, mustBlockG, addG, removeG, earlyG, releaseG, waitG, applyFns, Fn.apply, blockDeletion,
+      sleepsAfter, changedUnwritten] at hs
+    subst hs
+    simp [lstep, quiet]
+
+/-- REGRESSION (finding F9 = C03-N2 as it was before its repair, in `lstepOld`): with a handler-supplied fn carried over
+in the patch, the cycle left before the handlers and the release (`consistent = false`: the patch is non-empty from
+the start) although NO other event was queued and no version awaited; the fn has nothing to change, nothing is sent,
+no delay was returned — the object waits, settled, with no enabled step of the operator. -/
+theorem carried_fn_lost_wakeup_before_repair (own : String) :
+    ∃ ls s, lrunOld own { base := w0, queue := [snap w0], sleeping := false, cycDelays := false, cycMerge := false,
+                          cycChanges := false, cycViewRv := 0 } ls = some s ∧
+      Waiting own s.base ∧ Settled s.base ∧ ∀ l, LLabel.isOperator l = true → lstepOld own s l = none := by
   let uf : Env := { quiet with userFns := true, consistent := false }
-  let ls : List LLabel := [.base (.decide quiet ⟨0, false, [], true, false⟩), .base (.jsonPatch false), .base .mark,
+  refine ⟨[.base (.decide quiet ⟨0, false, [], true, false⟩), .base (.jsonPatch false), .base .mark,
     .base .handlerFinishes, .base (.decide quiet ⟨1, false, [own], true, false⟩), .base (.jsonPatch false),
-    .base (.decide uf ⟨2, true, [own], true, false⟩), .base (.jsonPatch false)]
-  have hrun : lrun own s0 ls = some
-      { base := { w0 with marked := true, fins := [own], rv := 2, delDone := true },
-        queue := [], sleeping := false, cycDelays := false, cycMerge := false, cycChanges := false, cycViewRv := 2,
-        cycUserFns := true } := by
-    simp [ls, s0, uf, lrun, lstep, enqueue, step, stepDecide, stepJson, stepMark, snap, w0, quiet, decision, inputs,
-      Decision.fns, mustBlockG, addG, removeG, earlyG, releaseG, applyFns, Fn.apply, blockDeletion, sleepsAfter, changedUnwritten]
-  have hreach : ∀ (ls : List LLabel) (s s' : LState), LReach own s → lrun own s ls = some s' → LReach own s' := by
-    intro ls
-    induction ls with
-    | nil => intro s s' h hr; simp [lrun] at hr; subst hr; exact h
-    | cons l ls ih =>
-      intro s s' h hr
-      simp only [lrun] at hr
-      cases hst : lstep own s l with
-      | none => simp [hst] at hr
-      | some s1 => simp [hst] at hr; exact ih s1 s' (LReach.step h hst) hr
-  refine ⟨_, hreach ls s0 _ (LReach.init ?_) hrun, ?_, ?_, ?_⟩
-  · exact ⟨⟨rfl, rfl, rfl, rfl, rfl, rfl, rfl⟩, rfl, rfl, rfl, rfl, rfl⟩
-  · exact ⟨rfl, rfl, by simp⟩
-  · exact ⟨fun _ => rfl, rfl⟩
+    .base (.decide uf ⟨2, true, [own], true, false⟩), .base (.jsonPatch false)],
+    { base := { w0 with marked := true, fins := [own], rv := 2, delDone := true },
+      queue := [], sleeping := false, cycDelays := false, cycMerge := false, cycChanges := false, cycViewRv := 2 },
+    ?_, ⟨rfl, rfl, by simp⟩, ⟨fun _ => rfl, rfl⟩, ?_⟩
+  · simp [uf, lrunOld, lstepOld, lstep, enqueue, step, stepDecide, stepJson, stepMark, snap, w0, quiet, decision, inputs,
+      Decision.fns, mustBlockG, addG, removeG, earlyG, releaseG, waitG, applyFns, Fn.apply, blockDeletion, sleepsAfter, changedUnwritten]
   · intro l hl
     cases l with
-    | touch => simp [lstep]
+    | touch => simp [lstepOld, lstep]
     | base bl =>
-      cases bl <;> simp [LLabel.isOperator] at hl <;> simp [lstep, step, stepMerge, stepJson, w0]
+      cases bl <;> simp [LLabel.isOperator] at hl <;> simp [lstepOld, lstep, step, stepMerge, stepJson, w0]
+
+/-- The history of C03-N6 / C07-F2 (repaired in 30557a0) on a deletion, now live: the deletion handler has finished;
+the worker still awaits the version of its own last patch, whose event is LOST (nothing else is queued); the cycle on
+the marked object has a non-empty patch that changes nothing (a constant on-event result), so it skips the wait and
+leaves before the handlers and the release — but returns the rest of the waiting time: the worker sleeps, touches
+the object, and the next cycle releases it. (Before the repair that early exit returned no delay: with an empty queue
+and `sleeping = false` nothing was enabled — and `lstep` did not even have this label: it assumed the awaited event
+always comes.) -/
+theorem inconsistent_noop_patch_keeps_wakeup (own : String) :
+    let b0 : State := { w0 with marked := true, fins := [own], rv := 2, delDone := true }
+    let s0 : LState := { base := b0, queue := [snap b0], sleeping := false, cycDelays := false, cycMerge := false,
+                         cycChanges := false, cycViewRv := 2 }
+    let ev : Env := { quiet with consistent := false, waiting := true, merge := true }
+    (lrun own s0 [.base (.decide ev ⟨2, true, [own], true, false⟩), .base .mergePatch, .base (.jsonPatch false)] =
+      some { s0 with queue := [], sleeping := true, cycDelays := true, cycMerge := true }) ∧
+    lrun own s0 [.base (.decide ev ⟨2, true, [own], true, false⟩), .base .mergePatch, .base (.jsonPatch false),
+      .touch, .base (.decide quiet ⟨3, true, [own], true, false⟩), .base (.jsonPatch false)] =
+    some { base := { b0 with gone := true, fins := [], rv := 4 },
+           queue := [⟨4, true, [], true, false⟩], sleeping := false, cycDelays := false, cycMerge := false,
+           cycChanges := false, cycViewRv := 3 } := by
+  constructor <;>
+  simp [lrun, lstep, enqueue, step, stepDecide, stepJson, stepMerge, stepMark, snap, w0, quiet, decision, inputs,
+    Decision.fns, mustBlockG, addG, removeG, earlyG, releaseG, waitG, applyFns, Fn.apply, blockDeletion, allowDeletion, allowLoop,
+    sleepsAfter, changedUnwritten]
 
 /-- The history of the former finding F7 (repaired in 7224f57), now live: a daemon is still exiting when the
 deletion is requested; the cycles return delays and their patch has dict content that changes nothing. The
@@ -669,7 +740,7 @@ plus one quiet cycle release it (before the repair this state had `sleeping = fa
 example (own : String) :
     let b0 : State := { w0 with matchDel := false, matchDmn := true }
     let s0 : LState := { base := b0, queue := [snap b0], sleeping := false, cycDelays := false, cycMerge := false,
-                         cycChanges := false, cycViewRv := 0, cycUserFns := false }
+                         cycChanges := false, cycViewRv := 0 }
     let noop : Env := { quiet with merge := true }
     lrun own s0 [.base (.decide quiet ⟨0, false, [], false, true⟩), .base (.jsonPatch false), .base .mark,
       .base (.decide noop ⟨1, false, [own], false, true⟩), .base .mergePatch, .base (.jsonPatch false),
@@ -678,9 +749,9 @@ example (own : String) :
       .touch, .base (.decide quiet ⟨3, true, [own], false, true⟩), .base (.jsonPatch false)] =
     some { base := { b0 with gone := true, marked := true, fins := [], rv := 4, dmnLive := false },
            queue := [⟨4, true, [], false, true⟩], sleeping := false, cycDelays := false, cycMerge := false,
-           cycChanges := false, cycViewRv := 3, cycUserFns := false } := by
+           cycChanges := false, cycViewRv := 3 } := by
   simp [lrun, lstep, enqueue, step, stepDecide, stepJson, stepMerge, stepMark, snap, w0, quiet, decision, inputs,
-    Decision.fns, mustBlockG, addG, removeG, earlyG, releaseG, applyFns, Fn.apply, blockDeletion, allowDeletion, allowLoop,
+    Decision.fns, mustBlockG, addG, removeG, earlyG, releaseG, waitG, applyFns, Fn.apply, blockDeletion, allowDeletion, allowLoop,
     sleepsAfter, changedUnwritten]
 
 /-! ## Non-vacuity -/
@@ -760,9 +831,9 @@ the wake-up layer: finalizer added, deletion requested, the handler finished —
 the first one (the operator's own write) still shows the object unmarked, so it is taken first. -/
 example : ∃ s, LReachG "k" s ∧ Waiting "k" s.base ∧ Settled s.base ∧ s.queue.length = 1 ∧ ∀ v ∈ s.queue, v.marked = true := by
   let mk (b : State) (q : List Snap) (vr : Nat) : LState :=
-    { base := b, queue := q, sleeping := false, cycDelays := false, cycMerge := false, cycChanges := false, cycViewRv := vr, cycUserFns := false }
+    { base := b, queue := q, sleeping := false, cycDelays := false, cycMerge := false, cycChanges := false, cycViewRv := vr }
   have s0 : LReachG "k" (mk w0 [snap w0] 0) := LReachG.init ⟨⟨rfl, rfl, rfl, rfl, rfl, rfl, rfl⟩, rfl, rfl, rfl, rfl, rfl⟩
-  have s1 := LReachG.step (l := .base (.decide quiet ⟨0, false, [], true, false⟩)) s0 rfl
+  have s1 := LReachG.step (l := .base (.decide quiet ⟨0, false, [], true, false⟩)) s0 trivial
     (s' := mk { w0 with pending := some ⟨[Fn.block], 0, [], false, false⟩ } [] 0) (by decide)
   have s2 := LReachG.step (l := .base (.jsonPatch false)) s1 rfl
     (s' := mk { w0 with fins := ["k"], rv := 1 } [⟨1, false, ["k"], true, false⟩] 0) (by decide)
@@ -772,7 +843,7 @@ example : ∃ s, LReachG "k" s ∧ Waiting "k" s.base ∧ Settled s.base ∧ s.q
     (s' := mk { w0 with fins := ["k"], rv := 2, marked := true, delDone := true }
               [⟨1, false, ["k"], true, false⟩, ⟨2, true, ["k"], true, false⟩] 0) (by decide)
   -- the stale, unmarked event is taken: nothing to do on it (the finalizer is there, the handler matches)
-  have s5 := LReachG.step (l := .base (.decide quiet ⟨1, false, ["k"], true, false⟩)) s4 rfl
+  have s5 := LReachG.step (l := .base (.decide quiet ⟨1, false, ["k"], true, false⟩)) s4 trivial
     (s' := mk { w0 with fins := ["k"], rv := 2, marked := true, delDone := true, pending := some ⟨[], 1, ["k"], false, false⟩ }
               [⟨2, true, ["k"], true, false⟩] 1) (by decide)
   have s6 := LReachG.step (l := .base (.jsonPatch false)) s5 rfl
